@@ -12,6 +12,7 @@ def histories(tier):
     layouts = {
         "gap+rollover": [("open", {}), ("w", 0, 5), ("w", 7, 6), ("w", 13, 2), ("close",)],
         "blocks": [("open", {}), ("wb", [0, 5, 13], [0, 2, 6], 9), ("w", 20, 2), ("close",)],
+        "blocks_only": [("open", {}), ("wb", [0, 4], [0, 2], 5), ("wb", [9, 13], [0, 3], 5), ("wb", [17, 21], [0, 1], 4), ("close",)],
     }
     out = []
     n, d, fc, sc = 10, 3, 1000, 2
@@ -166,7 +167,7 @@ def replay(case):
 def main(tier):
     chk = core.Check(
         PID, tier, "fault_enumeration",
-        rule=("for each history (gap + rollover inside calls, multi-block call; gapped and continuous%s) EVERY intercepted "
+        rule=("for each history (gap + rollover inside calls, multi-block call, rf_write_blocks only; gapped and continuous%s) EVERY intercepted "
               "file-system operation i (open/create, write, truncate, close, rename, mkdir) x errno {ENOSPC, EIO} x {once, "
               "persistent from i on} is one execution of the public Python writer in a subprocess under the LD_PRELOAD shim%s; "
               "the tree is inspected after every rename while the process runs and after it has exited (library exit "
